@@ -2,11 +2,13 @@ CONSTANTS
   PW = 241
   CA = 1
   CB = 21
+  EA = 240
+  ED = 7
   MaxLen = 3
   FirstBytes <- FewTags
   VMax = 300
   TextLen = 1
   SqrtPrimes = {3, 5, 7, 13, 17, 41, 97, 113, 193, 241, 251, 257}
 SPECIFICATION Spec
-INVARIANTS BinInv FpInv EpInv TextInv ValInv PointInv
+INVARIANTS BinInv FpInv EpInv EdInv TextInv ValInv PointInv
 CHECK_DEADLOCK FALSE
